@@ -567,6 +567,7 @@ type httpStats struct {
 	samples                        []any
 	stateNames                     []string
 	tripleAlphabet                 int
+	pairAlphabet                   int
 	triples                        int64
 }
 
@@ -663,11 +664,22 @@ func httpPart(run *ev.Run) httpStats {
 		starts = pairStartsQuick
 	}
 	phase("endpoint BFS")
+	// quick tier: pairs over the GET/PUT/POST x {no content type, JSON, form} part of the core alphabet
+	pairAlpha := core
+	if !run.Thorough() {
+		pairAlpha = nil
+		for _, r := range core {
+			if (r.Method == "GET" || r.Method == "PUT" || r.Method == "POST") && (r.CT == "" || r.CT == "application/json" || r.CT == ctForm) {
+				pairAlpha = append(pairAlpha, r)
+			}
+		}
+	}
+	st.pairAlphabet = len(pairAlpha)
 	var pairTraces, pairSteps atomic.Int64
-	par.For(len(starts)*len(core), func(i int) {
-		s, r1 := starts[i/len(core)], core[i%len(core)]
+	par.For(len(starts)*len(pairAlpha), func(i int) {
+		s, r1 := starts[i/len(pairAlpha)], pairAlpha[i%len(pairAlpha)]
 		var n int64
-		for _, r2 := range core {
+		for _, r2 := range pairAlpha {
 			g := newRig(s)
 			n++
 			if _, ok := c.step(g, r1, false, func() any { return traceCase{"http", int(s), []*request{r1}} }); !ok {
